@@ -3003,6 +3003,15 @@ func (c S3ApiController) DeleteObjects(ctx *fiber.Ctx) error {
 	// the access decision is taken for every key of the batch
 	for _, obj := range dObj.Objects {
 		key := getstring(obj.Key)
+		if !backend.IsObjectNameValid(key) || !backend.IsOpaqueIDValid(getstring(obj.VersionId)) {
+			return SendResponse(ctx, s3err.GetAPIError(s3err.ErrInvalidRequest),
+				&MetaOpts{
+					Logger:      c.logger,
+					MetricsMng:  c.mm,
+					Action:      metrics.ActionDeleteObjects,
+					BucketOwner: parsedAcl.Owner,
+				})
+		}
 		err = auth.VerifyAccess(ctx.Context(), c.be,
 			auth.AccessOptions{
 				Readonly:      c.readonly,
